@@ -25,7 +25,7 @@ const v04Frames = 20
 type v04Geom struct{ ncols, nrows int }
 
 // ground truth
-func v04Err(f, r, c int) int16 { return int16((f*31+r*7+c*3)%200 - 100) }
+func v04Err(f, r, c int) int16    { return int16((f*31+r*7+c*3)%200 - 100) }
 func v04FbTag(f, r, c int) uint16 { return uint16(0x1000 + (f*16+r*4+c)<<2) }
 
 type v04Script struct {
@@ -61,15 +61,15 @@ func (c *v04Card) allow(n int) {
 	c.mu.Unlock()
 }
 
-func (c *v04Card) ChangeRingBuffer(int, int) error                 { return nil }
-func (c *v04Card) Close() error                                    { return nil }
-func (c *v04Card) StartAdapter(int, int) error                     { return nil }
-func (c *v04Card) StopAdapter() error                              { return nil }
-func (c *v04Card) CollectorConfigure(int, int, uint32, int) error  { return nil }
-func (c *v04Card) StartCollector(bool) error                       { return nil }
-func (c *v04Card) StopCollector() error                            { return nil }
-func (c *v04Card) InspectAdapter() uint32                          { return 0 }
-func (c *v04Card) Wait() (time.Time, time.Duration, error)         { return time.Now(), 0, nil }
+func (c *v04Card) ChangeRingBuffer(int, int) error                { return nil }
+func (c *v04Card) Close() error                                   { return nil }
+func (c *v04Card) StartAdapter(int, int) error                    { return nil }
+func (c *v04Card) StopAdapter() error                             { return nil }
+func (c *v04Card) CollectorConfigure(int, int, uint32, int) error { return nil }
+func (c *v04Card) StartCollector(bool) error                      { return nil }
+func (c *v04Card) StopCollector() error                           { return nil }
+func (c *v04Card) InspectAdapter() uint32                         { return 0 }
+func (c *v04Card) Wait() (time.Time, time.Duration, error)        { return time.Now(), 0, nil }
 func (c *v04Card) ReleaseBytes(n int) error {
 	c.mu.Lock()
 	c.released += n
@@ -149,7 +149,7 @@ func (s *v04Script) build() (*v04Card, int) {
 		card.orig = append(card.orig, i)
 	}
 	card.rate = float64(4*words) * 1e5 // 100 kHz frame rate
-	toCut := func(o int) int { // offset in the cut stream of original offset o
+	toCut := func(o int) int {         // offset in the cut stream of original offset o
 		n := 0
 		for _, p := range card.orig {
 			if p < o {
@@ -422,7 +422,6 @@ func blocksFrame(blocks []v04Block, i int) int {
 	}
 	return -1
 }
-
 
 func v04Column(out [][]RawType, i, _ int) []RawType {
 	var v []RawType
